@@ -294,6 +294,10 @@ impl<'s> Scheduler<'s> {
                 let co_id = coroutine.id;
                 if CANCEL_COROUTINES.contains(&co_id) {
                     _ = CANCEL_COROUTINES.remove(&co_id);
+                    // tell the listeners, e.g. a pool counts its live workers through them
+                    if coroutine.cancel_unresumed().is_err() {
+                        warn!("Cancel coroutine:{} without notification !", co_id);
+                    }
                     warn!("Cancel coroutine:{} successfully !", co_id);
                     continue;
                 }
